@@ -60,7 +60,7 @@ type stoken struct {
 func tokenize(src string) ([]stoken, error) {
 	var toks []stoken
 	i := 0
-	ops := []string{"<==>", "==>", "&&", "||", "==", "!=", "<=", ">=", "::", "(", ")", "[", "]", "{", "}", ",", ":", ".", "?", "<", ">", "+", "-", "*", "/", "%", "!", "&", "|"}
+	ops := []string{"<==>", "===", "==>", "&&", "||", "==", "!=", "<=", ">=", "::", "(", ")", "[", "]", "{", "}", ",", ":", ".", "?", "<", ">", "+", "-", "*", "/", "%", "!", "&", "|"}
 	for i < len(src) {
 		c := src[i]
 		switch {
@@ -240,7 +240,7 @@ func (ps *parser) cmp() Expr {
 	x := ps.add()
 	for {
 		t := ps.peek()
-		if t.kind == "op" && (t.text == "==" || t.text == "!=" || t.text == "<" || t.text == "<=" || t.text == ">" || t.text == ">=") {
+		if t.kind == "op" && (t.text == "==" || t.text == "===" || t.text == "!=" || t.text == "<" || t.text == "<=" || t.text == ">" || t.text == ">=") {
 			ps.p++
 			x = &EBinary{t.text, x, ps.add()}
 			continue
@@ -854,4 +854,36 @@ func splitTop(s string, sep byte) []string {
 	}
 	out = append(out, s[start:])
 	return out
+}
+
+// splitConj splits a goal into its top-level conjuncts (through forall and implication), one query each.
+func splitConj(e Expr) []Expr {
+	switch x := e.(type) {
+	case *EBinary:
+		if x.Op == "&&" {
+			return append(splitConj(x.X), splitConj(x.Y)...)
+		}
+		if x.Op == "==>" {
+			parts := splitConj(x.Y)
+			if len(parts) > 1 {
+				var out []Expr
+				for _, p := range parts {
+					out = append(out, &EBinary{"==>", x.X, p})
+				}
+				return out
+			}
+		}
+	case *EQuant:
+		if x.Forall {
+			parts := splitConj(x.Body)
+			if len(parts) > 1 {
+				var out []Expr
+				for _, p := range parts {
+					out = append(out, &EQuant{Forall: true, Vars: x.Vars, Triggers: nil, Body: p})
+				}
+				return out
+			}
+		}
+	}
+	return []Expr{e}
 }
